@@ -349,6 +349,12 @@ def r20e(F):
 def r20g(F):
 	out = []
 	fn = POLL + 'ValidatedBlockHeader::check_builds_on'
+	top = F.func(fn)
+	# the hash / height / chainwork part may live in a helper that check_builds_on obeys (check_connects_to)
+	helper = POLL + 'ValidatedBlockHeader::check_connects_to'
+	if F.has_fn(helper) and sites_call(top, [helper]):
+		out += guarded_by_call(F, '20.g', fn, set(ok_return_blocks(top)), [helper], 'result', True)
+		fn = helper
 	fu = F.func(fn)
 	oks = set(ok_return_blocks(fu))
 	ex = Expr(fu)
@@ -387,11 +393,13 @@ def r20g(F):
 		if okh:
 			out += P4_guarded(F, '20.g', fu, oks, g.decisions, o[1] == 'Eq', 'height == previous.height + 1', key='height')
 	# (iii) mainnet difficulty rules: both arms return Err on mismatch
-	errs = set(err_return_blocks(fu))
-	n_err = len([b for b in errs])
+	n_err = len(set(err_return_blocks(fu))) + (len([b for b in err_return_blocks(top) if not (set(sites_call(top, [helper])) & top.reach_back([b]) and top.blocks[b]['t'][1] == 'call')]) if fu is not top else 0)
+	# count distinct refusals (explicit Err constructions) over the predicate and its wrapper
+	n_err = len({(f.name, bi) for f in ({fu.name: fu, top.name: top}.values()) for bi, si, c in ret_assignments(f) if c[0] == 'variant' and c[2] == 'Err'})
 	out.append(Result('20.g', n_err >= 5, ('ok:' if n_err >= 5 else 'floor:') + 'refusals', 'check_builds_on has %d refusing exits (prev hash, height, chainwork, difficulty transition, difficulty)' % n_err, n_err, where=F.where(fn)))
 	bits = []
-	for b, ci in fu.calls():
+	ex = Expr(top)
+	for b, ci in top.calls():
 		f = norm(ci.get('t') or ci.get('f') or '')
 		if f.endswith('PartialEq::ne') or f.endswith('PartialEq::eq'):
 			ks = [leaf_key(ex.of_operand(a)) for a in ci['args']]
@@ -400,7 +408,7 @@ def r20g(F):
 	if not bits:
 		out.append(Result('20.g', False, 'guard:bits', 'check_builds_on no longer compares header.bits with the previous header off retarget boundaries', 0, where=F.where(fn)))
 	# the caller uses its result (20.b) - and nobody else constructs the walk
-	out += P1_who_may_call(F, '20.g', [fn], [CP + 'look_up_previous_header'], floor=1)
+	out += P1_who_may_call(F, '20.g', [POLL + 'ValidatedBlockHeader::check_builds_on'], [CP + 'look_up_previous_header'], floor=1)
 	return out
 
 def r20f(F):
@@ -558,6 +566,29 @@ def r20h(F):
 	out += guarded_by_call(F, '20.h', fu.name, dc | listen | fd, [BS + 'init::validate_best_block_header'], 'result', True, what='validate_best_block_header Ok', mode='all-paths')
 	return out
 
+def r20i(F):
+	"""every header handed back by the notifier's walk was checked to connect to the header it was reached from - cache hits included"""
+	out = []
+	fu = _clos(F, CN + 'look_up_previous_header')
+	oks = set(ok_return_blocks(fu)) | {bi for bi, si, c in ret_assignments(fu) if c[0] in ('call', 'copy')}
+	chk = set(fu.call_blocks(lambda p: p.endswith('ValidatedBlockHeader::check_connects_to') or p.endswith('ValidatedBlockHeader::check_builds_on')))
+	pol = set(fu.call_blocks(lambda p: p.endswith('Poll::look_up_previous_header')))
+	if not pol:
+		return [Result('20.i', False, 'anchor:poller-walk', 'ChainNotifier::look_up_previous_header no longer falls back to Poll::look_up_previous_header', where=F.where(fu.name))]
+	rets = fu.return_blocks()
+	p = fu.path([0], rets, removed_blocks=chk | pol)
+	out.append(Result('20.i', p is None, ('ok:' if p is None else 'unchecked:') + 'cache-hit-connects', 'ChainNotifier::look_up_previous_header: a cached previous header is returned only after the requesting header was checked to connect to it (hash, height + 1, chainwork); otherwise the poller (which checks, 20.b) is asked' if p is None else 'ChainNotifier::look_up_previous_header returns a cached previous header without checking that the requesting header connects to it (lines %s): a source misreporting the height / chainwork of a header whose parent is cached gets it connected at that height' % fu.path_lines(p), len(chk) + len(pol), where=F.where(fu.name, fu.line_of(p[-1]) if p else None)))
+	if chk:
+		ds = call_decisions(fu, chk, 'result')
+		okr = set(ok_return_blocks(fu))
+		cache_ok = {b for b in okr if not (fu.reach_back([b]) & pol)} or okr
+		out += P4_fail_blocks(F, '20.i', fu, cache_ok, ds, True, 'connects-to check Ok', key='cache-hit-check-obeyed')
+		# the check is the same predicate the poller path uses
+		cb = F.func(POLL + 'ValidatedBlockHeader::check_builds_on')
+		shared = bool(sites_call(cb, [POLL + 'ValidatedBlockHeader::check_connects_to'])) or any(norm(fu.blocks[b]['t'][2].get('f') or '').endswith('check_builds_on') for b in chk)
+		out.append(Result('20.i', shared, ('ok:' if shared else 'sibling:') + 'one-connect-predicate', 'the cache-hit check and ChainPoller::look_up_previous_header use the same connectivity predicate (check_builds_on delegates to check_connects_to)', 1, where=F.where(cb.name)))
+	return out
+
 RULES = [
 	('20.a', 'validated wrappers are built only behind the PoW / hash / merkle / witness checks', r20a),
 	('20.b', 'ChainPoller: previous header only behind validate + check_builds_on; Better only on strictly more chainwork; Common only on equal hash', r20b),
@@ -566,5 +597,6 @@ RULES = [
 	('20.e', 'SpvClient.chain_tip is written only from the notifier result', r20e),
 	('20.f', 'fork walk steps the higher side and ends on the common block', r20f),
 	('20.g', 'check_builds_on refuses non-connecting headers', r20g),
+	('20.i', 'a cached previous header is used only after the header leading to it was checked to connect', r20i),
 	('20.h', 'start-up sync: disconnect to the fork point, connect only above each listener, abort on fetch failure', r20h),
 ]
